@@ -13,7 +13,7 @@ import (
 
 type ixFn = func(in *Interp, fr *Frame, args []Value) (Value, bool)
 
-var intrinsics map[string]ixFn
+var intrinsics = map[string]ixFn{}
 
 func tuple(vs ...Value) Value { return Value{K: KTuple, R: vs} }
 
@@ -35,15 +35,9 @@ func (in *Interp) newAtom(fam, key string) *Atom {
 		return a
 	}
 	in.atoms++
-	a := &Atom{ID: in.atoms, Fam: fam}
-	a.Rank = in.Ctx.Var(fmt.Sprintf("rank_%s_%s", fam, key), 16)
-	c := in.Ctx
-	for _, o := range in.atomTab {
-		if o.Fam == fam {
-			in.assertPC(c.Not(c.Cmp(smt.OpEq, a.Rank, o.Rank)))
-		}
-	}
+	a := &Atom{ID: in.atoms, Fam: fam, Key: key, ranks: map[string]*smt.Term{}}
 	in.atomTab[k] = a
+	in.atomList = append(in.atomList, a)
 	return a
 }
 
@@ -95,56 +89,7 @@ func (in *Interp) byteTerms(v Value) ([]*smt.Term, bool) {
 }
 
 func init() {
-	intrinsics = map[string]ixFn{
-		// ---- vx ----
-		"berty.tech/go-ipfs-log/internal/vx.Int": func(in *Interp, fr *Frame, a []Value) (Value, bool) {
-			return mkSymInt(in.Ctx.Var(in.freshName(concStrArg(a[0])), 64)), true
-		},
-		"berty.tech/go-ipfs-log/internal/vx.IntRange": func(in *Interp, fr *Frame, a []Value) (Value, bool) {
-			c := in.Ctx
-			v := c.Var(in.freshName(concStrArg(a[0])), 64)
-			in.Assume(c.And(c.Cmp(smt.OpSLe, a[1].Term(c), v), c.Cmp(smt.OpSLe, v, a[2].Term(c))))
-			return mkSymInt(v), true
-		},
-		"berty.tech/go-ipfs-log/internal/vx.Bool": func(in *Interp, fr *Frame, a []Value) (Value, bool) {
-			return mkSymBool(in.Ctx.Var(in.freshName(concStrArg(a[0])), 0)), true
-		},
-		"berty.tech/go-ipfs-log/internal/vx.Choice": func(in *Interp, fr *Frame, a []Value) (Value, bool) {
-			n := int(a[1].N)
-			return mkInt(uint64(in.Pick(n, "choice "+concStrArg(a[0]))), 64), true
-		},
-		"berty.tech/go-ipfs-log/internal/vx.Bytes": func(in *Interp, fr *Frame, a []Value) (Value, bool) {
-			name := in.freshName(concStrArg(a[0]))
-			maxLen := int(a[1].N)
-			n := in.Pick(maxLen+1, "len "+name)
-			out := make([]Value, n)
-			for i := range out {
-				out[i] = mkSymInt(in.Ctx.Var(fmt.Sprintf("%s[%d]", name, i), 8))
-			}
-			return Value{K: KSlice, R: &SliceV{S: out}}, true
-		},
-		"berty.tech/go-ipfs-log/internal/vx.Cid": func(in *Interp, fr *Frame, a []Value) (Value, bool) {
-			return cidOf(in.newAtom("cid", fmt.Sprintf("c%d", a[0].N))), true
-		},
-		"berty.tech/go-ipfs-log/internal/vx.FreshCid": func(in *Interp, fr *Frame, a []Value) (Value, bool) {
-			return cidOf(in.newAtom("cid", in.freshName("f"))), true
-		},
-		"berty.tech/go-ipfs-log/internal/vx.Assume": func(in *Interp, fr *Frame, a []Value) (Value, bool) {
-			in.Assume(a[0].Term(in.Ctx))
-			return Value{}, true
-		},
-		"berty.tech/go-ipfs-log/internal/vx.Assert": func(in *Interp, fr *Frame, a []Value) (Value, bool) {
-			in.Assert(concStrArg(a[0]), a[1].Term(in.Ctx), concStrArg(a[2]))
-			return Value{}, true
-		},
-		"berty.tech/go-ipfs-log/internal/vx.Cover": func(in *Interp, fr *Frame, a []Value) (Value, bool) {
-			in.Cover[concStrArg(a[0])] = true
-			return Value{}, true
-		},
-		"berty.tech/go-ipfs-log/internal/vx.Observe": func(in *Interp, fr *Frame, a []Value) (Value, bool) {
-			in.Obs = append(in.Obs, concStrArg(a[0]))
-			return Value{}, true
-		},
+	base := map[string]ixFn{
 		// ---- sync (seq scheduler) ----
 		"(*sync.RWMutex).Lock": func(in *Interp, fr *Frame, a []Value) (Value, bool) {
 			m := in.mutexOf(a[0])
@@ -308,12 +253,33 @@ func init() {
 			return mkStr(strings.Join(parts, concStrArg(a[1]))), true
 		},
 	}
+	for k, f := range base {
+		intrinsics[k] = f
+	}
 }
 
 func (in *Interp) lookupIntrinsic(fn *ssa.Function) *Intrinsic {
+	if ix, ok := in.ixCache[fn]; ok {
+		if ix != nil {
+			in.StubsHit[ix.Name]++
+		}
+		return ix
+	}
+	ix := in.lookupIntrinsic0(fn)
+	in.ixCache[fn] = ix
+	if ix != nil {
+		in.StubsHit[ix.Name]++
+	}
+	return ix
+}
+
+func (in *Interp) lookupIntrinsic0(fn *ssa.Function) *Intrinsic {
 	name := fn.String()
 	if f, ok := intrinsics[name]; ok {
 		return &Intrinsic{Name: name, F: f}
+	}
+	if fn.Pkg != nil && !in.isModulePkg(fn.Pkg) && (fn.Name() == "init" || strings.HasPrefix(fn.Name(), "init#")) {
+		return &Intrinsic{Name: "init(external)", F: func(in *Interp, fr *Frame, a []Value) (Value, bool) { return Value{}, true }}
 	}
 	if fn.Pkg != nil {
 		fn.Pkg.Build() // sync.Once inside; also waits for a build in progress on another worker
